@@ -202,31 +202,6 @@ def check_dialect(case, stats):
     got2 = [s.get("type", "<missing>") for s in pk2[0]["steps"]]
     if got2 != EN_TYPES:
         raise Violation(case, "English document parsed with a matcher that had just handled a %s document: pickle step types %r, expected %r" % (d, got2, EN_TYPES))
-    # copies of a configured matcher (prototype kept, copy.copy / copy.deepcopy / pickle round trip handed to each parse; the copies share
-    # what the original holds by reference or carry their own copy of it) type the steps like the original - this dialect's document as the
-    # matcher's default (no header) and the English one after it
-    import copy
-    import pickle
-    proto_d, proto_en = gh.TokenMatcher(d), gh.TokenMatcher("en")
-    gh.parse(text, matcher=proto_en)                  # the English prototype has handled a header document before it is copied
-    body = "\n".join(lines[1:]) + "\n"
-    for how, clone in (("copy.copy", copy.copy), ("copy.deepcopy", copy.deepcopy), ("pickle round trip", gh.pickle_clone)):
-        # two copies of one English prototype: the first reads the header document, then the second (and the prototype) read English ones
-        fresh_en = gh.TokenMatcher("en")
-        first, second, third = clone(fresh_en), clone(fresh_en), clone(proto_en)
-        gh.parse(text, matcher=first)
-        gh.parse(text, matcher=third)
-        for which, txt, mm, wanted in (("its own dialect's document", body, clone(proto_d), want), ("an English document", EN_DOC, clone(proto_en), EN_TYPES),
-                                       ("an English document after a sibling copy read a %s document" % d, EN_DOC, second, EN_TYPES),
-                                       ("an English document (the never-used prototype itself, after a copy read a %s document)" % d, EN_DOC, fresh_en, EN_TYPES),
-                                       ("an English document (the prototype itself, after a copy read a %s document)" % d, EN_DOC, proto_en, EN_TYPES)):
-            g3 = gh.IdGenerator()
-            r3 = gh.parse(txt, builder=gh.AstBuilder(g3), matcher=mm)
-            if r3[0] != "ok":
-                raise Violation(case, "a %s of a TokenMatcher rejects %s: %r" % (how, which, r3[1][:2]))
-            got3 = [s.get("type", "<missing>") for p_ in gh.Compiler(g3).compile(dict(r3[1], uri="u")) for s in p_["steps"]]
-            if got3 != wanted:
-                raise Violation(case, "a %s of a TokenMatcher (%s) on %s: pickle step types %r, expected %r" % (how, d, which, got3, wanted))
 
 
 def unit_dialects(a):
